@@ -6,6 +6,21 @@
 (*   {"e":"Obs","round":k,"n":n,"k":i,"ids":[..]}   thread i of a round of n      *)
 (*        threads released together by a barrier; ids = every value threadId()    *)
 (*        returned to that thread during its whole life, in call order            *)
+(*        "via":[..]   translation unit of the driver each call was compiled in   *)
+(*        (1 = drv_threadid.cpp, 2 = drv_threadid_tu2.cpp).  The identifier       *)
+(*        belongs to the THREAD: the spec has one cache per thread, not one per   *)
+(*        (thread, calling .cpp file), so StableSeq ranges over the calls of all  *)
+(*        units, and a record is only accepted as evidence if the thread was      *)
+(*        really observed from both units (BothUnits).                            *)
+(*        "slots":[a,b] "left":[x,y]   header-only user of threadId(), the reader *)
+(*        path of DistributedRWLock, on two thread-private locks: a (b) = the     *)
+(*        sub-lock that is read-held after lock_shared() compiled in unit 1 (2),  *)
+(*        x (y) = number of sub-lock words that are not 0 after the matching      *)
+(*        unlock_shared() compiled in the OTHER unit.  lock_shared() and          *)
+(*        unlock_shared() both pick the sub-lock with threadId(), so for a stable *)
+(*        identifier both units pick the same sub-lock (a = b, exactly one held:  *)
+(*        >= 0) and a lock/unlock pair of one thread leaves the lock free         *)
+(*        (x = y = 0) wherever the two halves are compiled.                       *)
 (* One step per record.  `seen` is the set of identifiers observed so far in the  *)
 (* whole process (never reset: uniqueness is process-wide, across rounds, i.e.    *)
 (* also against threads that have already exited).  StableSeq / Injective are     *)
@@ -24,12 +39,24 @@ ObsInit ==
   /\ cnt = 0
   /\ round = <<>>       \* identifiers of the current round, indexed by thread
 
+\* the record carries calls compiled in both translation units of the driver
+BothUnits(ev) == /\ Len(ev.via) = Len(ev.ids)
+                 /\ {ev.via[i] : i \in 1 .. Len(ev.via)} = {1, 2}
+\* the header-only reader path picks the same sub-lock from both units, and a lock_shared() /
+\* unlock_shared() pair split over the two units leaves a private lock free
+SameSubLock(ev) == /\ Len(ev.slots) = 2 /\ Len(ev.left) = 2
+                   /\ ev.slots[1] >= 0
+                   /\ StableSeq(ev.slots)
+                   /\ \A i \in 1 .. Len(ev.left) : ev.left[i] = 0
+
 ObsStep ==
   /\ l <= Len(TraceLog)
   /\ LET ev == TraceLog[l] IN
        /\ ev.e = "Obs"
        /\ Len(ev.ids) >= 1
-       /\ StableSeq(ev.ids)              \* stable for the lifetime of the thread
+       /\ StableSeq(ev.ids)              \* stable for the lifetime of the thread, whichever unit asks
+       /\ BothUnits(ev)
+       /\ SameSubLock(ev)
        /\ ev.ids[1] >= 0
        /\ ev.ids[1] \notin seen          \* distinct from every other thread of the process
        /\ seen' = seen \cup {ev.ids[1]}
@@ -46,5 +73,9 @@ ObsAccepted ==
   IF d = Len(TraceLog) THEN TRUE
   ELSE /\ PrintT(<<"TRACE_REJECTED_AT_LINE", d + 1, "OF", Len(TraceLog)>>)
        /\ PrintT(<<"OFFENDING", TraceLog[d + 1]>>)
+       /\ LET ev == TraceLog[d + 1] IN
+            ev.e = "Obs" =>
+              PrintT(<<"CONJUNCTS", [StableAcrossUnits |-> StableSeq(ev.ids), BothUnits |-> BothUnits(ev),
+                                     SameSubLock |-> SameSubLock(ev)]>>)
        /\ FALSE
 ==========================================================================
